@@ -9,6 +9,7 @@ from ..lifter import LiftError, Term, walk_terms
 from ..shapes import u
 from ..srcmodel import walk_no_nested
 from . import c10_common
+from ..linarith import lin, lin_add, show, straightline
 
 # operators whose value is defined on integers by the architecture / bit-vector reading: a constant evaluator is expected
 INTEGER_OPS_PREFIX = ('umul', 'imul', 'div', 'rem', 'idiv', 'irem')
@@ -230,6 +231,134 @@ def run(ctx, report):
         else:
             R4.violation('deal_class[%s]' % c, 'deal_class:%s' % c, 'eval_expr_no_cache has no evaluator for %s' % c, where(ea, enc))
 
+    R5 = report.rule('C06.D5', 'each constant evaluator uses the arithmetic its operator names (operator token, rotation ring size)', floor=14)
+    FOLD = {'+': 'Add', '*': 'Mult', '&': 'BitAnd', '|': 'BitOr', '^': 'BitXor'}
+    BINARY = {'<<': 'LShift', '>>': 'RShift'}
+    CMP = {'==': 'Eq', '<': 'Lt'}
+    ROT = {'<<<': ('LShift', 0), '>>>': ('RShift', 0), '<<<c_rez': ('LShift', 1), '<<<c_cf': ('LShift', 1), '>>>c_rez': ('RShift', 1), '>>>c_cf': ('RShift', 1)}
+
+    def resolve(fn):
+        """follow `return self.eval_op_x(args, ..) >> 1` style delegation to the evaluator that does the arithmetic"""
+        for n in ast.walk(fn):
+            if isinstance(n, ast.Call) and isinstance(n.func, ast.Attribute) and u(n.func.value) == 'self' and n.func.attr in methods and n.func.attr.startswith('eval_op'):
+                return methods[n.func.attr]
+        return fn
+    for op in sorted(deal):
+        fn0 = methods.get(deal[op])
+        if fn0 is None:
+            continue
+        inst = 'denotation %r (%s)' % (op, deal[op])
+        if op in FOLD:
+            rets, folds, ok = straightline(fn0)
+            if folds and folds[0][0] == FOLD[op] and folds[0][1].replace(' ', '') == 'args[1:]' and folds[0][2] == 'args[0]':
+                R5.ok(inst, sample='%r folds args with python %s' % (op, FOLD[op]))
+            else:
+                R5.violation(inst, 'denot:%s' % op, '%s does not fold all operands with the python operator %s starting from args[0] (found %s)' % (deal[op], FOLD[op], folds), where(ea, fn0))
+        elif op == '-':
+            rets, folds, ok = straightline(fn0)
+            rt = [u(r).replace(' ', '') for r in rets]
+            if 'args[0]-args[1]' in rt and '-args[0]' in rt:
+                R5.ok(inst, sample="'-': args[0]-args[1] / -args[0]")
+            else:
+                R5.violation(inst, 'denot:-', '%s no longer returns args[0]-args[1] (binary) and -args[0] (unary): %s' % (deal[op], rt), where(ea, fn0))
+        elif op in CMP:
+            rets, folds, ok = straightline(fn0)
+            good = False
+            for r in rets:
+                for n in ast.walk(r):
+                    if isinstance(n, ast.Compare) and len(n.ops) == 1 and type(n.ops[0]).__name__ == CMP[op] and u(n.left) == 'args[0]' and u(n.comparators[0]) == 'args[1]':
+                        good = u(r).replace(' ', '').startswith('[0,1][')
+            if good:
+                R5.ok(inst, sample='%r: [0, 1][int(args[0] %s args[1])]' % (op, op))
+            else:
+                R5.violation(inst, 'denot:%s' % op, '%s is not the 0/1 value of args[0] %s args[1]: %s' % (deal[op], op, [u(r) for r in rets]), where(ea, fn0))
+        elif op in BINARY:
+            rets, folds, ok = straightline(fn0)
+            good = False
+            for r in rets:
+                if isinstance(r, ast.BinOp) and type(r.op).__name__ == BINARY[op] and 'args[0]' in u(r.left) and u(r.right).startswith('args[1]') \
+                        and 'mymaxuint[op_size]' in u(r.left):
+                    good = True
+            if good:
+                R5.ok(inst, sample='%r: (args[0] & mask) %s args[1]' % (op, op))
+            else:
+                R5.violation(inst, 'denot:%s' % op, '%s is not (args[0] & mymaxuint[op_size]) %s args[1]: %s' % (deal[op], op, [u(r) for r in rets]), where(ea, fn0))
+        elif op in ('*hi', '*lo'):
+            rets, folds, ok = straightline(fn0)
+            good = False
+            for r in rets:
+                t = u(r).replace(' ', '')
+                if op == '*hi' and isinstance(r, ast.BinOp) and isinstance(r.op, ast.RShift) and lin(r.right) == {'op_size': 1} and isinstance(r.left, ast.BinOp) and isinstance(r.left.op, ast.Mult):
+                    good = True
+                if op == '*lo' and isinstance(r, ast.BinOp) and isinstance(r.op, ast.BitAnd) and u(r.right) == 'mymaxuint[op_size]' and isinstance(r.left, ast.BinOp) and isinstance(r.left.op, ast.Mult):
+                    good = True
+            if good:
+                R5.ok(inst, sample='%r: product %s' % (op, '>> op_size' if op == '*hi' else '& mask'))
+            else:
+                R5.violation(inst, 'denot:%s' % op, '%s is not the %s half of the double-width product: %s' % (deal[op], 'high' if op == '*hi' else 'low', [u(r) for r in rets]), where(ea, fn0))
+        elif op == '!':
+            rets, folds, ok = straightline(fn0)
+            good = any(isinstance(r, ast.BinOp) and isinstance(r.op, ast.BitXor) and u(r.left) == 'args[0]' and 'mymaxuint[op_size]' in u(r.right) for r in rets)
+            if good:
+                R5.ok(inst, sample="'!': args[0] ^ all-ones(op_size)")
+            else:
+                R5.violation(inst, 'denot:!', '%s is not args[0] ^ all-ones of op_size' % deal[op], where(ea, fn0))
+        elif op in ROT:
+            fn = resolve(fn0)
+            direction, carry = ROT[op]
+            rets, folds, ok = straightline(fn)
+            problems = []
+            if not rets:
+                problems.append('no returned expression')
+            for r in rets[:1]:
+                if not (isinstance(r, ast.BinOp) and isinstance(r.op, ast.BitOr)):
+                    problems.append('result is not the OR of two shifted halves')
+                    break
+                halves = []
+                for side in (r.left, r.right):
+                    sh = [n for n in ast.walk(side) if isinstance(n, ast.BinOp) and isinstance(n.op, (ast.LShift, ast.RShift)) and not (isinstance(n.right, ast.Constant))]
+                    if len(sh) != 1:
+                        problems.append('half %s does not contain exactly one variable shift' % u(side)[:60])
+                        break
+                    halves.append(sh[0])
+                if problems:
+                    break
+                kinds = sorted(type(h.op).__name__ for h in halves)
+                if kinds != ['LShift', 'RShift']:
+                    problems.append('the two halves shift in the same direction')
+                    break
+                mods = [n for n in ast.walk(r) if isinstance(n, ast.BinOp) and isinstance(n.op, ast.Mod)]
+                if not mods:
+                    problems.append('the rotation count is not reduced modulo the ring size')
+                    break
+                modulus = lin(mods[0].right)
+                count = u(mods[0])
+                ring = {'op_size': 1}
+                if carry:
+                    ring[1] = 1
+                uses_carry = 'args[2]' in u(r)
+                if bool(carry) != uses_carry:
+                    problems.append('carry operand args[2] is %s' % ('missing' if carry else 'unexpected'))
+                if modulus != ring:
+                    problems.append('count is reduced modulo %s, the ring has %s positions' % (show(modulus), show(ring)))
+                total = lin_add(lin(halves[0].right), lin(halves[1].right))
+                # replace the count symbol
+                total_wo = dict((k, c) for k, c in total.items() if k != count)
+                if total.get(count, 0) != 0 or total_wo != ring:
+                    problems.append('the two shift amounts add up to %s instead of the ring size %s' % (show(total).replace(count, 'r'), show(ring)))
+                main = [h for h in halves if lin(h.right) == {count: 1}]
+                if not main or type(main[0].op).__name__ != direction:
+                    problems.append('the half shifted by the count goes %s, operator %r rotates %s' % (type(main[0].op).__name__ if main else '?', op, direction))
+                if 'args[1] & 31' not in count and 'args[1] & 0x1f' not in count.lower():
+                    problems.append('count is not args[1] & 0x1F')
+            if problems:
+                R5.violation(inst, 'denot:%s:%s' % (op, ';'.join(problems)[:100]), '%s: %s' % (fn.name, '; '.join(problems)), where(ea, fn),
+                             witness='8-bit operand, constant count >= 9' if 'modulo' in ' '.join(problems) else None)
+            else:
+                R5.ok(inst, sample='%r: ring of %s positions, count mod ring, complementary shifts' % (op, 'op_size+1' if carry else 'op_size'))
+        else:
+            R5.ok(inst + ':not-judged', nontrivial=False)
+
 
 MUTANTS = [
     ('no-xor', 'miasmx/expression/expression_eval_abstract.py', "               '^':eval_op_xor,\n", "", 'C06.D'),
@@ -244,5 +373,10 @@ MUTANTS = [
      "    def eval_op_xor(self, args, op_size, cast_int):\n        ret_value = args[0] ^ args[1]\n", 'C06.D2'),
     ('no-dispatch-guard', 'miasmx/expression/expression_eval_abstract.py',
      "        if not e.op in self.deal_op:\n            # uninterpreted operator: keep it symbolic\n            return ExprOp(e.op, *args)\n", "", 'C06.D1'),
+    ('rotr-mod', 'miasmx/expression/expression_eval_abstract.py', "    def eval_op_rotr(self, args, op_size, cast_int):\n        r = args[1]&0x1F\n        r %=op_size\n", "    def eval_op_rotr(self, args, op_size, cast_int):\n        r = args[1]&0x1F\n        r %=op_size+1\n", 'C06.D5'),
+    ('rotl-compl', 'miasmx/expression/expression_eval_abstract.py', "((args[0] & mymaxuint[op_size]) >> (op_size-r))", "((args[0] & mymaxuint[op_size]) >> (op_size-r-1))", 'C06.D5'),
+    ('or-is-xor', 'miasmx/expression/expression_eval_abstract.py', "            ret_value = ret_value | a\n", "            ret_value = ret_value ^ a\n", 'C06.D5'),
+    ('rcl-dir', 'miasmx/expression/expression_eval_abstract.py', "        rez = (tmpa<<r) | (tmpa >> (op_size+uint64(1)-r))", "        rez = (tmpa>>r) | (tmpa << (op_size+uint64(1)-r))", 'C06.D5'),
+    ('mulhi-shift', 'miasmx/expression/expression_eval_abstract.py', "        ret_value =  (a*b) >> uint64(op_size)", "        ret_value =  (a*b) >> uint64(op_size-1)", 'C06.D5'),
     ('no-slice-eval', 'miasmx/expression/expression_eval_abstract.py', "                      ExprSlice: self.eval_ExprSlice,\n", "", 'C06.D4'),
 ]
